@@ -51,7 +51,24 @@ func guardedMarshal(c codec.Codec, v interface{}) (b []byte, o outcome, msg stri
 	if err != nil {
 		return nil, oErr, err.Error()
 	}
+	trackEncoding(c.Name(), out) // kept alive, uncopied: a later encode must not change it
 	return append([]byte{}, out...), oOK, ""
+}
+
+// rawMarshal returns exactly what the encoder returned (no copy) for steps that decode an
+// encoding only after further values have been encoded.
+func rawMarshal(c codec.Codec, v interface{}) (b []byte, ok bool) {
+	defer func() {
+		if e := recover(); e != nil {
+			b, ok = nil, false
+		}
+	}()
+	out, err := c.Marshal(v)
+	if err != nil {
+		return nil, false
+	}
+	trackEncoding(c.Name(), out)
+	return out, true
 }
 
 func guardedUnmarshal(c codec.Codec, data []byte, v interface{}) (o outcome, msg string) {
@@ -810,6 +827,7 @@ func runModel(cfg *RunCfg) {
 	w := NewCaseWriter(cfg)
 	distinct := DistinctSet{}
 	for i := 0; i < cfg.N; i++ {
+		flushStability(st, i)
 		switch c := cfg.Rng.Intn(23); {
 		case c >= 20:
 			bodyCase(cfg, st, w, i, distinct)
@@ -823,6 +841,8 @@ func runModel(cfg *RunCfg) {
 			plainCase(cfg, st, w, i, distinct, true)
 		}
 	}
+	flushStability(st, cfg.N-1)
+	st.Extra = map[string]interface{}{"encodings_kept_alive_model": stabilityHits}
 	st.Evaluations = cfg.N
 	st.DistinctNontrivial = len(distinct)
 	st.Write(cfg, w)
